@@ -4,7 +4,7 @@
 From CV Require Import Value.ValueEq Value.ValueEqProofs Value.EqualM Value.Den Value.DenFacts Value.DenLists
                        Value.CanonSpec Value.CanonProofs Value.CanonProofs3 Value.CanonM Value.CanonMStruct
                        Value.CanonMWords Value.CanonMData Value.CanonMHeap Value.CanonMLoop Value.CanonSafe Value.EqualProofs
-                       Value.CanonMProofs Value.CanonMInd Value.CanonMListP Value.CanonMListR Value.VDec Value.VDecProofs.
+                       Value.CanonMProofs Value.CanonMInd Value.CanonMListP Value.CanonMListR Value.CanonMListC Value.VDec Value.VDecProofs.
 From CV Require Import Core.ReaderFacts Core.SafetyProofs Core.BuilderFacts Core.ArithFacts Core.CopySafe.
 From Coq Require Import ZifyBool ZifyNat.
 Ltac Zify.zify_post_hook ::= Z.div_mod_to_equations.
@@ -17,7 +17,7 @@ Context (Hstrict : cfg_strict c = true) (Hfx : all_cfixed fx) (Hm : msg_ok m).
 (* ------------------------------------------------------------------ all fuels *)
 Lemma list_step f : Q_ptr c fx m f -> Q_fill c fx m f -> Q_list c fx m (S f).
 Proof.
-  intros HP HF data cap rl p v w' cp Hi Hwf Hv Hk D Hsd H.
+  intros HP HF data cap rl p v w' cp Hi Hwf Hv Hk Hcal D Hsd H.
   destruct v as [| | |k es|]; try discriminate Hsd; try (exfalso; inversion D; subst; congruence).
   destruct k; try discriminate Hsd.
   - eapply list_prim_case; try eassumption; discriminate.
@@ -26,15 +26,16 @@ Proof.
   - eapply list_prim_case; try eassumption; discriminate.
   - eapply list_prim_case; try eassumption; discriminate.
   - eapply list_ptr_case; eassumption.
+  - eapply list_comp_case; eassumption.
 Qed.
 
 Theorem Q_all : forall f, Q_ptr c fx m f /\ Q_fill c fx m f /\ Q_list c fx m f.
 Proof.
   induction f as [|f (IHp & IHf & IHl)].
   - split; [|split].
-    + intros data cap rl p v w' cp _ _ _ _ _ H. discriminate H.
-    + intros data cap rl dst s ws vs A dn pn w' _ _ _ _ _ _ _ _ _ _ _ _ _ _ _ H. discriminate H.
     + intros data cap rl p v w' cp _ _ _ _ _ _ H. discriminate H.
+    + intros data cap rl dst s ws vs A dn pn w' _ _ _ _ _ _ _ _ _ _ _ _ _ _ _ H. discriminate H.
+    + intros data cap rl p v w' cp _ _ _ _ _ _ _ H. discriminate H.
   - split; [apply ptr_step; assumption|]. split; [apply fill_step; assumption| apply list_step; assumption].
 Qed.
 
